@@ -31,10 +31,10 @@ INVARIANT Export
 CHECK_DEADLOCK FALSE
 '''
 A7 = '"NTD", "NTS", "EXD", "EXS", "S1", "E1", "LK"'
-A10 = A7 + ', "TN", "TERM", "TPID", "THD", "NTDo"'
+A10 = A7 + ', "TN", "TERM", "TPID", "THD", "NTDo", "KN"'
 
 
-def mk(world, tpl, t):
+def mk(world, tpl, t, known=None):
     """template of Interleave_MC!Mk -> concrete recipe (same abstract arguments)."""
     w = world
     if tpl == 'NTD':
@@ -63,6 +63,8 @@ def mk(world, tpl, t):
         return w.tpid(t, 300 + t)
     if tpl == 'THD':
         return w.thd(t, 400 + t, t)
+    if tpl == 'KN':
+        return w.known(0, t, name=known)
     raise KeyError(tpl)
 
 
@@ -78,7 +80,7 @@ def masked(step, stream_pos):
     return {'emit': True, 'win': [stream_pos[k] for k in step['win']], 'f': f, 'eff': step['eff']}
 
 
-def replay_schedule(ctx, b):
+def replay_schedule(ctx, b, known=None):
     w = World(random.Random(1), big_tids=True)
     # abstract tids used as arguments (ntid = 10 + t, ttid) must map consistently
     stream, pos, owner = [], {}, []
@@ -86,7 +88,7 @@ def replay_schedule(ctx, b):
     for t in b['sched']:
         j = pc.get(t, 0) + 1
         pc[t] = j
-        stream.append(mk(w, b['prog'][t - 1][j - 1], t))
+        stream.append(mk(w, b['prog'][t - 1][j - 1], t, known))
         pos[len(stream)] = 8 * j + t
         owner.append(t)
     ex = run_stream(w, stream)
@@ -103,7 +105,7 @@ def replay_schedule(ctx, b):
             ctx.violation('C05/replay/thread-log',
                           'programs %s schedule %s: thread %d step %d: code %s, spec %s'
                           % (b['prog'], b['sched'], t, i + 1, got[i] if i < len(got) else None, exp[i] if i < len(exp) else None),
-                          {'kind': 'schedule', 'b': b, 'stream': describe(w, stream)})
+                          {'kind': 'schedule', 'b': b, 'known': known, 'stream': describe(w, stream)})
             return False
     return True
 
@@ -164,6 +166,15 @@ def run(ctx):
     if len(behs) < 1000:
         raise RuntimeError('schedule export too small: %d' % len(behs))
     ok = sum(1 for b in behs if replay_schedule(ctx, b))
+    # schedules holding a named-but-undecoded record: once more with every such code of the trace class
+    kn = World(random.Random(1)).trace_known
+    extra = 0
+    for i, b in enumerate(behs):
+        if any('KN' in p for p in b['prog']) and (not ctx.quick or i % 3 == 0):
+            for name in kn:
+                extra += 1
+                replay_schedule(ctx, b, known=name)
+    ctx.extra['undecoded_trace_class_reruns'] = extra
     ctx.traces += len(behs)
     ctx.extra['spec_to_code'] = {'schedules_replayed': len(behs), 'agreeing': ok}
     ctx.sample({'schedule': behs[len(behs) // 3]})
@@ -173,7 +184,7 @@ def run(ctx):
     nil = 4 if ctx.quick else 8
     solo_cmp = 0
     for i in range(nsets):
-        w = World(rnd)
+        w = World(rnd, ts='any')
         nt = rnd.choice([2, 2, 3])
         g = gen.ProgGen(w, rnd, ntids=nt, noise=0.1)
         progs = [g.program(t, rnd.randrange(1, 4)) for t in range(1, nt + 1)]
@@ -209,5 +220,5 @@ def replay(ctx, path):
     rp = json.load(open(path))['replay']
     print(json.dumps(rp, indent=1)[:3000])
     if rp.get('kind') == 'schedule':
-        return 0 if replay_schedule(ctx, rp['b']) else 1
+        return 0 if replay_schedule(ctx, rp['b'], rp.get('known')) else 1
     return replay_stream(ctx, rp)
